@@ -88,6 +88,7 @@ def drive_state(pest, h):
     from pest.state import ParserState  # noqa: PLC0415
 
     st = ParserState("x" * 64, 0, None)
+    scopes = []  # open "with state.atomic_checkpoint()" blocks
     for i, (op, exp) in enumerate(zip(h["ops"], h["exp"])):
         try:
             if op in ("checkpoint", "ok", "restore", "drop"):
@@ -106,6 +107,12 @@ def drive_state(pest, h):
                 st.atomic_depth += 1
             elif op == "azero":
                 st.atomic_depth.zero()
+            elif op == "aenter":
+                cm = st.atomic_checkpoint()
+                cm.__enter__()
+                scopes.append(cm)
+            elif op == "aexit":
+                scopes.pop().__exit__(None, None, None)
             else:
                 raise C.MachineryError(op)
         except C.MachineryError:
@@ -274,7 +281,7 @@ def run(tier: str) -> int:
     rep.exhaustive = True
     rep.rule = (
         "TLC enumerates every operation history up to the length bound from the full-copy reference models "
-        f"(Stack: 6 ops, length {n_stack}; SnapshottingInt: 6 ops, length {n_int}; ParserState: 11 ops, length {n_state}); "
+        f"(Stack: 6 ops, length {n_stack}; SnapshottingInt: 6 ops, length {n_int}; ParserState: 13 ops, length {n_state}); "
         "each maximal history is one case, distinct by construction (tree of histories); plus random length-40 behaviours; "
         "plus Stack traces recorded from real parses validated by TLC"
     )
